@@ -55,6 +55,7 @@ MUTANTS = {
     ],
     "C09": [
         {"name": "revert_fix_rotate_order", "kind": "revert", "commit": "93dce91"},
+        {"name": "revert_fix_numpy_start", "kind": "revert", "commit": "068cf95"},
         {"name": "revert_fix_empty_paths", "kind": "revert", "commit": "d0f5811"},
         {"name": "pad_behind_off_by_one", "kind": "sub", "file": BT,
          "old": "        pad_behind = start + lenip - (lenop + pad_before)\n",
@@ -89,7 +90,6 @@ MUTANTS = {
     ],
     "C10": [
         {"name": "revert_fix_format_once", "kind": "revert", "commit": "f035d3f"},
-        {"name": "revert_fix_move_alias", "kind": "revert", "commit": "0dc79df"},
         {"name": "children_rotate_about_own_centre", "kind": "sub", "file": BT,
          "old": "            child._rotate(rotation, anchor=anchor, start=start, parent_path=ppth)\n",
          "new": "            child._rotate(rotation, anchor=anchor, start=start, parent_path=None if parent_path is not None else ppth)\n"},
@@ -170,7 +170,12 @@ MUTANTS = {
         {"name": "revert_fix_style_reset", "kind": "revert", "commit": "f3dd4e6"},
         {"name": "revert_fix_label_key", "kind": "revert", "commit": "282ec0a"},
         {"name": "revert_fix_alias", "kind": "revert", "commit": "0b26a89"},
-        {"name": "revert_fix_reset", "kind": "revert", "commit": "b397bbb"},
+        {"name": "reset_merges_into_current_values", "kind": "sub", "file": "magpylib/_src/defaults/defaults_classes.py",
+         "old": "        for key, val in get_defaults_dict().items():\n            setattr(self, key, None)\n            setattr(self, key, val)\n",
+         "new": "        self.update(get_defaults_dict(), _match_properties=False)\n"},
+        {"name": "revert_fix_keyword_values_copied", "kind": "revert", "commit": "ee6915f"},
+        {"name": "revert_fix_method_names", "kind": "revert", "commit": "ba97f86"},
+        {"name": "revert_fix_description_string", "kind": "revert", "commit": "19f04ab"},
         {"name": "revert_fix_dipole_ctor", "kind": "revert", "commit": "15cf0ed"},
         {"name": "show_kwarg_below_object_style", "kind": "sub", "file": ST,
          "old": "    style.update(**style_kwargs_specific, _match_properties=True)\n",
@@ -187,9 +192,9 @@ MUTANTS = {
         {"name": "families_resolved_general_last", "kind": "sub", "file": ST,
          "old": "    for obj_family in obj_families:\n        family_style = getattr(default_style, obj_family, {})\n",
          "new": "    for obj_family in reversed(obj_families):\n        family_style = getattr(default_style, obj_family, {})\n"},
-        {"name": "magic_to_dict_drops_sibling_on_third_level", "kind": "sub", "file": DU,
-         "old": "            if keys[0] in new_kwargs and isinstance(new_kwargs[keys[0]], dict):\n                new_kwargs[keys[0]].update(val)\n",
-         "new": "            if keys[0] in new_kwargs and isinstance(new_kwargs[keys[0]], dict) and len(keys) < 4:\n                new_kwargs[keys[0]].update(val)\n"},
+        {"name": "magic_to_dict_later_dict_replaces_earlier_entries", "kind": "sub", "file": DU,
+         "old": "            new_kwargs[keys[0]] = {**new_kwargs[keys[0]], **val}\n",
+         "new": "            new_kwargs[keys[0]] = dict(val) if len(keys) == 1 else {**new_kwargs[keys[0]], **val}\n"},
         {"name": "copy_shares_style_with_original", "kind": "sub", "file": BG,
          "old": "            obj_copy.style.label = label\n",
          "new": "            obj_copy.style.label = label\n            obj_copy.style.path = self.style.path\n"},
